@@ -218,3 +218,33 @@ prop("C10", shards=16,
           "optimised path with the ring mid-way. Distinct: hash of the JSON case.",
      level_text="Sampled keys and call histories, dense around one and two cipher blocks.",
      level_note="Trusted: crypto/aes, harness/ref/cfb8 (25 lines; anchored by the NIST CFB8 vectors in net/CFB8/cfb8_test.go).")
+
+prop("C14", shards=16,
+     technique="model-based rapid histories against a map model and an independent Anvil image parser",
+     rule="Histories of 1..60 (thorough 400) operations: WriteSector (coordinates from a small generated working set plus arbitrary "
+          "0..31^2; sizes from {1, 2, 100, 4091, 4092, 4093, k*4096-4+-1 for k=1..6, 8188, 8189, log-uniform to 128 KiB, the "
+          "largest accepted 255*4096-4, +1 and +5000 (refused)}: fresh, growing, shrinking, same sector count), ReadSector, "
+          "ExistSector, PadToFullSector, re-open with Load on the same bytes. Backing store: in-memory ReadWriteSeeker with sparse-"
+          "file semantics, with and without io.WriterAt (both writeAt paths); thorough tier also real files. After EVERY step: every "
+          "live chunk reads back its last written bytes, never-written chunks report absence, refused writes leave the image byte-"
+          "identical, and the image parsed by harness/ref/anvil has exactly the model's entries with offset >= 2, count >= 1, "
+          "pairwise disjoint runs, correct length prefix and data; after re-open Timestamps of the fresh Region equal those held "
+          "before. Non-trivial: an overwrite changing the sector count with >= 3 live chunks, or writes after a re-open. "
+          "Distinct: hash of the history.",
+     level_text="Model-based sampling of histories with boundary sizes; invariant checked after every step.",
+     level_note="Trusted: harness/ref/anvil, harness/iox.MemFile. Size 0 is not generated (a zero length prefix means 'no data' to the "
+                "reader; real chunks start with a compression byte). Timestamps are compared between the two Regions only (the clock "
+                "is not an oracle).")
+prop("C15", shards=16, level="fault_enumeration",
+     technique="crash-point enumeration over recorded physical writes of generated histories",
+     rule="Histories as in C14 (1..30 ops, thorough 80; sizes mostly <= 128 KiB) on a write-recording store. For EVERY WriteSector of "
+          "the history: the image before it, the ordered physical writes w1..wk it issued, every prefix j = 0..k, and the last "
+          "write of each prefix additionally torn at every 512-byte boundary and at 2 generated byte offsets. Each crash image is "
+          "re-opened with region.Load (must succeed) and every chunk other than the one being written must read back its model "
+          "bytes; coordinates never written must still be absent. Nothing is asserted about the chunk being written. Non-trivial: "
+          "the interrupted write re-allocates (sector count changed) in an image with >= 3 live chunks after at least one run was "
+          "freed. Distinct: hash(history position, crash point, image head). evaluations counts crash images.",
+     level_text="Fault enumeration: every crash point (write prefix and torn final write) of every WriteSector of each sampled "
+                "history.",
+     level_note="Trusted: harness/iox.MemFile write log and image reconstruction. Crash model: writes reach the medium in issue order, "
+                "a torn write keeps a prefix of its bytes (no reordering, no sector-level corruption).")
